@@ -198,6 +198,9 @@ class Run:
         self.verifier = verifier
         self.n_decisions = 0
         self.notes = []
+        self.refute = False     # bounded refutation mode: concrete list lengths, loops unrolled, no invariants
+        self.bound = 2          # list length used for fresh lists in refute mode
+        self.unroll = 4         # loop unrolling bound in refute mode
 
     def fresh_name(self, prefix):
         n = self.counters.get(prefix, 0)
@@ -331,8 +334,12 @@ class State:
         raise Unsupported("fresh: type %r" % (t,))
 
     def fresh_listobj(self, etype, prefix):
-        n = z3.Int(self.run.fresh_name(prefix + ".len"))
-        self.assume(n >= 0)
+        if self.run.refute:
+            n = z3.IntVal(self.run.bound)
+            self.run.fresh_name(prefix + ".len")
+        else:
+            n = z3.Int(self.run.fresh_name(prefix + ".len"))
+            self.assume(n >= 0)
         cols = [z3.Array(self.run.fresh_name("%s.c%d" % (prefix, i)), z3.IntSort(), s)
                 for i, s in enumerate(leaf_sorts(etype))]
         return ListObj(n, cols, etype)
@@ -1171,11 +1178,27 @@ class Ev:
                 o.etype = t.elem
                 o.cols = [z3.K(z3.IntSort(), _default(s)) for s in leaf_sorts(t.elem)]
 
+    def _cut(self, tgt, node):
+        """ghost assertion attached to `name = ...` by the contract (`cuts`): proved here, assumed afterwards.
+        Used as an instantiation hint / lemma; never an assumption (it is an obligation first)."""
+        c = self.frame.contract
+        if not isinstance(tgt, ast.Name) or c is None or self.pure or self.st.run.refute:
+            return
+        cuts = getattr(c, "cuts", None) or {}
+        if tgt.id not in cuts or not self.frame.top:
+            return
+        from .contract import spec_eval
+        for k, text in enumerate(cuts[tgt.id]):
+            f = spec_eval(self, text)
+            self.st.oblige("%s/cut.%s.%d" % (c.id, tgt.id, k + 1), f, note=text, line=node.lineno)
+            self.st.assume(f)
+
     def s_Assign(self, node):
         v = self.expr(node.value)
         for t in node.targets:
             self._typed_empty(t, v)
             self.assign(t, v)
+            self._cut(t, node)
 
     def s_AnnAssign(self, node):
         if node.value is None:
@@ -1183,6 +1206,7 @@ class Ev:
         v = self.expr(node.value)
         self._typed_empty(node.target, v)
         self.assign(node.target, v)
+        self._cut(node.target, node)
 
     def s_AugAssign(self, node):
         tgt = node.target
